@@ -20,6 +20,7 @@ type simOpts struct {
 	mixed        bool // allow xpcall together with coroutines (hits the open finding MSGH)
 	nonclos      bool // allow the "non-closable value" runtime error (open finding about its missing position)
 	closeRun     bool // allow handlers that call functions
+	big          bool // thorough tier: wider size ranges
 	closeStorm   bool // directed shape: coroutine closed while suspended in its body or inside a handler
 	hostBoundary bool // main chunk not wrapped in pcall: errors reach the embedding caller (open finding HOST)
 }
@@ -526,6 +527,14 @@ func genSim(t *core.Tape, o simOpts) *program {
 		g.nco = 1 + t.Choose(3)
 	}
 	g.budget = 10 + t.Choose(40)
+	if o.big {
+		// thorough tier: larger programs as well as more of them
+		g.nfun = 2 + t.Choose(7)
+		g.budget = 10 + t.Choose(140)
+		if o.coro {
+			g.nco = 1 + t.Choose(5)
+		}
+	}
 	p := &program{}
 	// which functions serve as coroutine bodies
 	cobody := make([]int, g.nco)
